@@ -43,9 +43,15 @@ def table(name, first_model_only=True):
         t = []
         for row in rows:
             ch = g(row, "pdbx_formal_charge")
+            # the author identity of a residue is (auth_asym_id, auth_seq_id, auth_comp_id); a file that writes only part of it (8btk_B7.cif has no
+            # auth_comp_id) identifies its residues completely only through the label items, and those are then the identity 'as written'
+            auth_ok = all(g(row, it) is not None for it in ("auth_asym_id", "auth_seq_id", "auth_comp_id"))
+            label_ok = all(g(row, it) is not None for it in ("label_asym_id", "label_seq_id", "label_comp_id"))
+            use_auth = auth_ok or not label_ok
             t.append(dict(record=g(row, "group_PDB", "ATOM"), serial=int(g(row, "id")), name=g(row, "auth_atom_id") or g(row, "label_atom_id"),
-                          altloc=g(row, "label_alt_id"), resname=g(row, "auth_comp_id") or g(row, "label_comp_id"), chain=g(row, "auth_asym_id") or g(row, "label_asym_id"),
-                          resseq=int(g(row, "auth_seq_id") or g(row, "label_seq_id")), icode=g(row, "pdbx_PDB_ins_code"), x=g(row, "Cartn_x"), y=g(row, "Cartn_y"),
+                          altloc=g(row, "label_alt_id"), resname=(g(row, "auth_comp_id") if use_auth else None) or g(row, "label_comp_id"),
+                          chain=(g(row, "auth_asym_id") if use_auth else None) or g(row, "label_asym_id"),
+                          resseq=int((g(row, "auth_seq_id") if use_auth else None) or g(row, "label_seq_id")), icode=g(row, "pdbx_PDB_ins_code"), x=g(row, "Cartn_x"), y=g(row, "Cartn_y"),
                           z=g(row, "Cartn_z"), occ=g(row, "occupancy"), b=g(row, "B_iso_or_equiv", "0.00"), element=g(row, "type_symbol"),
                           charge=int(ch) if ch and ch.lstrip("-").isdigit() and int(ch) else None, model=int(g(row, "pdbx_PDB_model_num", "1")),
                           label_atom=g(row, "label_atom_id"), label_comp=g(row, "label_comp_id"), label_asym=g(row, "label_asym_id"),
@@ -66,6 +72,21 @@ def residues(t):
         else:
             out.append((ident, [a]))
     return out
+
+
+def single_conformer(t):
+    """No alternate locations and no two atoms of a model closer than 0.5 A (partial-occupancy copies of a residue written as separate residues, as in
+    488d.pdb, are alternate conformers in all but name: the residue-level reader keeps one of them by design - C08's clash rule)."""
+    if has_altlocs(t):
+        return False
+    import numpy as np
+    from scipy.spatial import cKDTree
+
+    for m in sorted({a["model"] for a in t}):
+        pts = np.array([[float(a["x"]), float(a["y"]), float(a["z"])] for a in t if a["model"] == m])
+        if len(pts) > 1 and cKDTree(pts).query_pairs(0.5):
+            return False
+    return True
 
 
 def has_altlocs(t):
